@@ -97,20 +97,64 @@ package evaluator
 //@   loop 1 invariant unpackedKwargs != nil && fresh(unpackedKwargs) && unpackedKwargs.Pairs != nil && fresh(unpackedKwargs.Pairs) && *unpackedKwargs.Pairs != nil && fresh(*unpackedKwargs.Pairs)
 //@   loop 1 invariant fresh(args)
 //
+// keyword-argument tables of the syntax tree hold an expression for every key (parser output, assumed)
+//@ invariant assumed map[*ast.Ident]ast.Expr: self != nil
+//@ traced: evaluator.sortedKwargKeys
 //@ func evaluator.evalKwargs(kwargs, env) res, err
 //@   requires env != nil
+//@   also     C08 C09
 //@   ensures  err == nil ==> res != nil && fresh(res) && res.Pairs != nil && fresh(res.Pairs) && *res.Pairs != nil && fresh(*res.Pairs)
+// C08/C09: the keyword arguments are evaluated once each, in the order of the key list that sortedKwargKeys returns
+// (source positions), stopping at the first error; an entry once made is never replaced (first occurrence wins)
+//@   ensures  ncalls >= 1 && called(0, evaluator.sortedKwargKeys)
+//@   ensures  forall k int :: {arg1(k)} 1 <= k && k < ncalls ==> called(k, evaluator.Eval) && arg1(k) == kwargs[keys[k - 1]] && arg2(k) == env
+//@   ensures  forall k int :: {result(k)} 1 <= k && k < ncalls - 1 ==> !isT(result(k), *object.PanErr)
+//@   ensures  err == nil ==> ncalls == len(keys) + 1
 //@   assigns  EC
-//@   loop 1 invariant fresh(pairMap) && pairMap != nil
+//@   loop 1 invariant fresh(pairMap) && pairMap != nil && ncalls == rangeindex + 2 && (forall i int :: {keys[i]} 0 <= i && i < len(keys) ==> has(kwargs, keys[i]))
+//@   loop 1 invariant forall k int :: {arg1(k)} 1 <= k && k < ncalls ==> called(k, evaluator.Eval) && arg1(k) == kwargs[keys[k - 1]] && arg2(k) == env && !isT(result(k), *object.PanErr)
+//@   loop 1 step forall h uint64 :: {pairMap[h]} prev(has(pairMap, h)) ==> has(pairMap, h) && pairMap[h] == prev(pairMap[h])
+// the key list: every key of the table, ordered by source position (line, column) - the sort itself is the
+// library's (trusted summary: a permutation ordered by the given less function)
+//@ func evaluator.sortedKwargKeys(kwargs) keys
+//@   ensures  fresh(keys) && (forall i int :: {keys[i]} 0 <= i && i < len(keys) ==> has(kwargs, keys[i]))
+//@   assigns  nothing
+//@   loop 1 invariant fresh(keys) && (forall i int :: {keys[i]} 0 <= i && i < len(keys) ==> has(kwargs, keys[i]))
+//@ func evaluator.kwargKeyBefore(k1, k2) res
+//@   requires k1 != nil && k2 != nil
+//@   ensures  k1.Src != nil && k2.Src != nil && k1.Src.Pos.Line != k2.Src.Pos.Line ==> (res <==> k1.Src.Pos.Line < k2.Src.Pos.Line)
+//@   ensures  k1.Src != nil && k2.Src != nil && k1.Src.Pos.Line == k2.Src.Pos.Line && k1.Src.Pos.Column != k2.Src.Pos.Column ==> (res <==> k1.Src.Pos.Column < k2.Src.Pos.Column)
+//@   assigns  nothing
 //
 // extractEmbeddedElems appends to the caller's (private) list of non-hashable pairs
 //@ func evaluator.extractEmbeddedElems(node, env, nonHashablePairs) pairs, err
 //@   requires node != nil && env != nil
+//@   also     C09 C08
 //@   assigns EC, nonHashablePairs
 //@   loop 1 invariant fresh(pairs) && (fresh(nonHashablePairs) || arrOf(nonHashablePairs) == arrOf(nonHashablePairs0))
+//@   loop 1 invariant arrOf(pairs) != arrOf(nonHashablePairs)
 //@   loop 2 invariant fresh(pairs) && (fresh(nonHashablePairs) || arrOf(nonHashablePairs) == arrOf(nonHashablePairs0))
+//@   loop 2 invariant arrOf(pairs) != arrOf(nonHashablePairs)
 //@   loop 3 invariant fresh(pairs) && (fresh(nonHashablePairs) || arrOf(nonHashablePairs) == arrOf(nonHashablePairs0))
+//@   loop 3 invariant arrOf(pairs) != arrOf(nonHashablePairs)
 //@   loop 4 invariant fresh(pairs) && (fresh(nonHashablePairs) || arrOf(nonHashablePairs) == arrOf(nonHashablePairs0))
+//@   loop 4 invariant arrOf(pairs) != arrOf(nonHashablePairs)
+//@   loop 5 invariant fresh(pairs) && (fresh(nonHashablePairs) || arrOf(nonHashablePairs) == arrOf(nonHashablePairs0))
+//@   loop 5 invariant arrOf(pairs) != arrOf(nonHashablePairs)
+// C08/C09: what `**m` contributes is a function of m alone: its scalar-keyed pairs in m's insertion order (then its
+// other pairs in their order, unless an equal key is already there); `**o` contributes o's properties in the order
+// of its key lists (public names sorted, then private names sorted) - never in the order of a Go map iteration
+//@   loop 3 step forall i int :: {pairs[i]} 0 <= i && i < prev(len(pairs)) ==> pairs[i] == prev(pairs[i])
+//@   loop 3 step has(*as(evaluated, *object.PanMap).Pairs, (*as(evaluated, *object.PanMap).HashKeys)[rangeindex]) ==> len(pairs) == prev(len(pairs)) + 1 && pairs[prev(len(pairs))] == (*as(evaluated, *object.PanMap).Pairs)[(*as(evaluated, *object.PanMap).HashKeys)[rangeindex]]
+//@   loop 3 step !has(*as(evaluated, *object.PanMap).Pairs, (*as(evaluated, *object.PanMap).HashKeys)[rangeindex]) ==> len(pairs) == prev(len(pairs))
+//@   loop 4 step forall i int :: {pairs[i]} 0 <= i && i < prev(len(pairs)) ==> pairs[i] == prev(pairs[i])
+//@   loop 4 step has(*as(evaluated, *object.PanObj).Pairs, (*as(evaluated, *object.PanObj).Keys)[rangeindex]) ==> len(pairs) == prev(len(pairs)) + 1 && pairs[prev(len(pairs))] == (*as(evaluated, *object.PanObj).Pairs)[(*as(evaluated, *object.PanObj).Keys)[rangeindex]]
+//@   loop 4 step !has(*as(evaluated, *object.PanObj).Pairs, (*as(evaluated, *object.PanObj).Keys)[rangeindex]) ==> len(pairs) == prev(len(pairs))
+//@   loop 5 step forall i int :: {pairs[i]} 0 <= i && i < prev(len(pairs)) ==> pairs[i] == prev(pairs[i])
+//@   loop 5 step has(*as(evaluated, *object.PanObj).Pairs, (*as(evaluated, *object.PanObj).PrivateKeys)[rangeindex]) ==> len(pairs) == prev(len(pairs)) + 1 && pairs[prev(len(pairs))] == (*as(evaluated, *object.PanObj).Pairs)[(*as(evaluated, *object.PanObj).PrivateKeys)[rangeindex]]
+//@   loop 5 step !has(*as(evaluated, *object.PanObj).Pairs, (*as(evaluated, *object.PanObj).PrivateKeys)[rangeindex]) ==> len(pairs) == prev(len(pairs))
+//@   loop 2 step forall i int :: {pairs[i]} 0 <= i && i < prev(len(pairs)) ==> pairs[i] == prev(pairs[i])
+//@   loop 2 step len(pairs) >= prev(len(pairs)) && len(pairs) <= prev(len(pairs)) + 1 && (len(pairs) == prev(len(pairs)) + 1 ==> pairs[prev(len(pairs))] == (*as(evaluated, *object.PanMap).NonHashablePairs)[rangeindex])
 //
 // ---- ghost call log --------------------------------------------------------------------------
 // Direct calls of these functions are recorded, in order, in the ghost log of the calling activation
@@ -714,4 +758,54 @@ package evaluator
 //@   ensures  isT(self, *object.PanBuiltInIter) ==> ncalls == 1 && called(0, "object.BuiltInFunc") && arg1(0) == as(self, *object.PanBuiltInIter).Env && res == result(0)
 //@   ensures  !isT(self, *object.PanFunc) && !isT(self, *object.PanBuiltInIter) ==> ncalls == 0 && isErr(res)
 //@   assigns  EC
-
+//
+// ---- C09 / C08: object and map literals -----------------------------------------------------------------
+//@ traced: evaluator.evalObjPair, evaluator.evalMapPair, evaluator.extractEmbeddedElems
+//@ props C09 C08
+// {k: v, ..., **o, ...}: the pairs are evaluated once each, in the order written, then the unpacked expressions in
+// the order written; an entry once made is never replaced (the first occurrence of a name wins), and every
+// property of an unpacked object whose name is still free is taken over
+//@ func evaluator.evalObj(node, env) res
+//@   requires node != nil && env != nil
+//@   ensures  isVal(res)
+//@   assigns  EC
+//@   loop 1 invariant fresh(pairMap) && pairMap != nil && ncalls == rangeindex + 1
+//@   loop 1 invariant forall k int :: {arg1(k)} 0 <= k && k < ncalls ==> called(k, evaluator.evalObjPair) && arg1(k) == node.Pairs[k] && arg2(k) == env
+//@   loop 1 step forall h uint64 :: {pairMap[h]} prev(has(pairMap, h)) ==> has(pairMap, h) && pairMap[h] == prev(pairMap[h])
+//@   loop 2 invariant fresh(pairMap) && pairMap != nil && ncalls == len(node.Pairs) + rangeindex + 1
+//@   loop 2 invariant forall k int :: {arg1(k)} len(node.Pairs) <= k && k < ncalls ==> called(k, evaluator.Eval) && arg1(k) == node.EmbeddedExprs[k - len(node.Pairs)] && arg2(k) == env
+//@   loop 2 step forall h uint64 :: {pairMap[h]} prev(has(pairMap, h)) ==> has(pairMap, h) && pairMap[h] == prev(pairMap[h])
+//@   loop 3 invariant fresh(pairMap) && pairMap != nil
+//@   loop 3 invariant forall h uint64 :: {visited(3, h)} visited(3, h) ==> has(pairMap, h)
+//@   loop 3 invariant forall h uint64 :: {pairMap[h]} atentry(has(pairMap, h)) ==> has(pairMap, h) && pairMap[h] == atentry(pairMap[h])
+//@   loop 3 step forall h uint64 :: {pairMap[h]} prev(has(pairMap, h)) ==> has(pairMap, h) && pairMap[h] == prev(pairMap[h])
+//@   loop 3 step forall h uint64 :: {pairMap[h]} !prev(has(pairMap, h)) && has(pairMap, h) ==> has(*obj.Pairs, h) && pairMap[h] == (*obj.Pairs)[h]
+//
+// %{k: v, ...}: pairs evaluated once each in the order written; a pair with a scalar key is always handed on (the
+// map constructor keeps the first per key), in the order written
+//@ func evaluator.evalMap(node, env) res
+//@   requires node != nil && env != nil
+//@   ensures  isVal(res)
+//@   assigns  EC
+//@   loop 1 invariant fresh(pairs) && fresh(nonHashablePairs) && arrOf(pairs) != arrOf(nonHashablePairs) && ncalls >= rangeindex + 1
+//@   loop 1 step called(prev(ncalls), evaluator.evalMapPair) && arg1(prev(ncalls)) == node.Pairs[rangeindex] && arg2(prev(ncalls)) == env
+//@   loop 1 step forall i int :: {pairs[i]} 0 <= i && i < prev(len(pairs)) ==> pairs[i] == prev(pairs[i])
+//@   loop 1 step len(pairs) >= prev(len(pairs)) && len(pairs) <= prev(len(pairs)) + 1
+//
+// "...#{e1}...#{e2}...": the embedded expressions are evaluated once each from the first written to the last (the
+// syntax tree links the pieces from the last to the first, so the chain is collected first), each followed by its
+// .S call; the first error ends the evaluation
+//@ func evaluator.evalEmbeddedStr(node, env) res
+//@   requires node != nil && env != nil
+//@   also     C07
+//@   ensures  isVal(res)
+//@   assigns  EC
+// loop 1 collects the chain node.Former, .Former.Former, ... (last written piece first); loop 2 walks it backwards,
+// i.e. from the first written piece to the last: the j-th evaluation (j = 0, 1, ...) is of pieces[len-1-j]
+//@   loop 1 invariant fresh(pieces) && ncalls == 0 && (forall i int :: {pieces[i]} 0 <= i && i < len(pieces) ==> pieces[i] != nil)
+//@   loop 1 invariant len(pieces) == 0 ==> n == node.Former
+//@   loop 1 invariant len(pieces) > 0 ==> pieces[0] == node.Former && pieces[len(pieces) - 1].Former == n
+//@   loop 1 invariant forall i int :: {pieces[i]} 0 < i && i < len(pieces) ==> pieces[i - 1].Former == pieces[i]
+//@   loop 2 invariant 0 - 1 <= i && i < len(pieces) && ncalls == 2 * (len(pieces) - 1 - i)
+//@   loop 2 invariant forall j int :: {called(2 * j, evaluator.Eval)} 0 <= j && j < len(pieces) - 1 - i ==> called(2 * j, evaluator.Eval) && arg1(2 * j) == pieces[len(pieces) - 1 - j].Expr && arg2(2 * j) == env && !isT(result(2 * j), *object.PanErr) && called(2 * j + 1, evaluator.builtInCallProp)
+//@   loop 2 invariant forall k int :: {pieces[k]} 0 <= k && k < len(pieces) ==> pieces[k] != nil
